@@ -338,4 +338,9 @@ theorem step_sim (wb : WB) (b : Spec.Book) (op : Op) (h : Sim wb b) (hok : OpOk 
         refine ⟨?_, hs⟩
         rw [getRowVisible_abs s r (by omega), habs]
 
+theorem checkSheet_err (rows : List Row)
+    (h : rows.any (fun r => decide (r.r > Facts.TotalRows)) = true) : checkSheet rows = Res.err := by
+  unfold checkSheet; simp only [h, if_true]
+
+
 end XlModel.Save
